@@ -41,6 +41,8 @@ def install(ctx, repo, probes):
         ctx.target("unit/" + u)
     for u in ("hours", "minutes", "seconds"):
         ctx.target("decimal/" + u)
+    ctx.target("alt/date-only/cal", "alt/date-only/ord",
+               "alt/date-only/month", "alt/date-only/year")
     ctx.target("weeks", "negative", "empty", "alt/ext", "alt/basic",
                "alt/ordinal", "decimal/non-final-unit", "point-decimal",
                "after-rejected-input")
@@ -258,7 +260,41 @@ def make_spelled(rng):
     return text, want
 
 
+def make_alt_date_only(rng):
+    """alternative spellings without a time part: complete dates (calendar
+    or ordinal, basic or extended), the reduced forms P[YYYY]-[MM] and
+    P[YYYY], and the same with an expanded +YYYYYY year; every unit that is
+    not spelled is zero"""
+    y = rng.choice((0, 1, 4, 10, 1985, 9999, rng.randint(0, 9999)))
+    mo, dd, ddd = rng.randint(0, 12), rng.randint(0, 30), rng.randint(0, 365)
+    ext = rng.random() < 0.5
+    sep = "-" if ext else ""
+    ys = "%04d" % y if rng.random() < 0.75 else "+%06d" % y
+    form = rng.choice(("cal", "ord", "month", "year"))
+    want = {"years": y, "months": 0, "days": 0, "hours": 0, "minutes": 0,
+            "seconds": 0}
+    if form == "cal":
+        want.update(months=mo, days=dd)
+        alt = "%s%s%02d%s%02d" % (ys, sep, mo, sep, dd)
+        desig = "%dY%dM%dD" % (y, mo, dd)
+    elif form == "ord":
+        want.update(days=ddd)
+        alt = "%s%s%03d" % (ys, sep, ddd)
+        desig = "%dY%dD" % (y, ddd)
+    elif form == "month":
+        want.update(months=mo)
+        alt = "%s-%02d" % (ys, mo)          # no basic form exists
+        desig = "%dY%dM" % (y, mo)
+    else:
+        alt = ys
+        desig = "%dY" % y
+    return {"op": "alt", "alt": "P" + alt, "desig": "P" + desig,
+            "want": want, "kind": "date-only/" + form}
+
+
 def make_alt(rng):
+    if rng.random() < 0.3:
+        return make_alt_date_only(rng)
     y = rng.choice((0, 1, 10, 1985, 9999, rng.randint(0, 9999)))
     h, mi, s = rng.randrange(24), rng.randrange(60), rng.randrange(60)
     kind = rng.choice(("ext", "basic", "ordinal"))
